@@ -1,6 +1,7 @@
 package rules
 
 import (
+	"reflect"
 	"go/token"
 	"go/types"
 	"sort"
@@ -126,16 +127,39 @@ func checkC14(c *km.Ctx) {
 				continue
 			}
 			rateArg, burstArg := stripConv(nl.Common().Args[0]), stripConv(nl.Common().Args[1])
-			fromCfg := mentionsField(rateArg, "PasswordAttemptGlobalRateLimit") && mentionsField(burstArg, "PasswordAttemptGlobalBurstLimit")
-			r.Add("R-C14-2", km.FuncName(fn), "limiter construction", posOf(c, st), "rate.NewLimiter(Config.Base.PasswordAttemptGlobalRateLimit, int(Config.Base.PasswordAttemptGlobalBurstLimit))", km.ValStr(st.Val), fromCfg)
+			// the two configured quantities are identified by their YAML keys (the operator's contract), wherever
+			// the fields live and whatever they are called
+			rateOwner, rateField := yamlField(c, "password_attempt_global_rate_limit")
+			burstOwner, burstField := yamlField(c, "password_attempt_global_burst_limit")
+			if rateField == "" || burstField == "" {
+				r.AnchorLost("R-C14-2", "configuration fields with the YAML keys password_attempt_global_rate_limit / password_attempt_global_burst_limit")
+				continue
+			}
+			fromCfg := fieldLoadOf(rateArg, rateOwner, rateField) && fieldLoadOf(burstArg, burstOwner, burstField)
+			// when the construction sits in a method of the struct that holds the limits, the receiver has to be the
+			// configuration
+			if fromCfg && cfn != fn {
+				fromCfg = false
+				if cl, ok := km.Unwrap(st.Val).(*ssa.Call); ok {
+					for _, a := range km.CallArgs(cl.Common()) {
+						if _, path, okP := km.FieldPath(km.Unwrap(a)); okP && strings.Contains(path, "Config.") {
+							fromCfg = true
+						}
+					}
+					if rateOwner == KMD+".baseConfig" {
+						fromCfg = true
+					}
+				}
+			}
+			r.Add("R-C14-2", km.FuncName(fn), "limiter construction", posOf(c, st), "rate.NewLimiter(configured password_attempt_global_rate_limit, int(configured password_attempt_global_burst_limit))", km.ValStr(st.Val), fromCfg)
 			for _, cl := range []struct {
-				field string
-				min   float64
-			}{{"PasswordAttemptGlobalBurstLimit", 10}, {"PasswordAttemptGlobalRateLimit", 1}} {
-				ok, desc := clampBefore(c, cfn, nl, cl.field, cl.min)
+				owner, field string
+				min          float64
+			}{{burstOwner, burstField, 10}, {rateOwner, rateField, 1}} {
+				ok, desc := clampBefore(c, cfn, nl, cl.owner, cl.field, cl.min)
 				if cfn != fn {
 					// adjustments made by the caller before it calls the constructor count as well
-					ok2, desc2 := clampBefore(c, fn, st, cl.field, cl.min)
+					ok2, desc2 := clampBefore(c, fn, st, cl.owner, cl.field, cl.min)
 					ok, desc = ok && ok2, strings.TrimSpace(desc+" "+desc2)
 				}
 				r.Add("R-C14-2", km.FuncName(fn), "clamp "+cl.field, posOf(c, nl), sprintf("between parsing and construction the configured value is only ever raised to a floor <= %v (never above what the operator configured beyond that floor)", cl.min), desc, ok)
@@ -500,7 +524,7 @@ func positiveDuration(v ssa.Value) bool {
 // clampBefore: every adjustment of the configured limit between the parsing of the configuration and the
 // construction of the limiter raises it to no more than the documented floor (a larger constant would let more
 // guesses through than the operator configured). Returns ok and a description.
-func clampBefore(c *km.Ctx, fn *ssa.Function, at ssa.Instruction, field string, floor float64) (bool, string) {
+func clampBefore(c *km.Ctx, fn *ssa.Function, at ssa.Instruction, owner, field string, floor float64) (bool, string) {
 	// the parse of the configuration file
 	var parse ssa.Instruction
 	for _, ci := range km.CallsIn(fn) {
@@ -510,13 +534,9 @@ func clampBefore(c *km.Ctx, fn *ssa.Function, at ssa.Instruction, field string, 
 	}
 	ok := true
 	var seen []string
-	km.Instrs(fn, func(in ssa.Instruction) {
-		st, isSt := in.(*ssa.Store)
-		if !isSt || !km.InstrDominates(st, at) || (parse != nil && !km.InstrDominates(parse, st)) {
-			return
-		}
+	judge := func(st *ssa.Store) {
 		fa, isFA := st.Addr.(*ssa.FieldAddr)
-		if !isFA || fieldNameOf(fa) != field {
+		if !isFA || fieldNameOf(fa) != field || km.NamedTypeOf(fa.X.Type()) != owner {
 			return
 		}
 		v := km.Unwrap(st.Val)
@@ -545,8 +565,60 @@ func clampBefore(c *km.Ctx, fn *ssa.Function, at ssa.Instruction, field string, 
 		}
 		ok = false
 		seen = append(seen, "= "+km.ValStr(v))
+	}
+	km.Instrs(fn, func(in ssa.Instruction) {
+		switch x := in.(type) {
+		case *ssa.Store:
+			if !km.InstrDominates(x, at) || (parse != nil && !km.InstrDominates(parse, x)) {
+				return
+			}
+			judge(x)
+		case ssa.CallInstruction:
+			// a method or helper called between the parse and the construction that adjusts the limits
+			if !km.InstrDominates(x, at) || (parse != nil && !km.InstrDominates(parse, x)) || x == parse {
+				return
+			}
+			g := km.StaticCallee(x.Common())
+			if g == nil || g.Blocks == nil || !c.InModule(g) {
+				return
+			}
+			km.Instrs(g, func(i2 ssa.Instruction) {
+				if st, isSt := i2.(*ssa.Store); isSt {
+					judge(st)
+				}
+			})
+		}
 	})
 	return ok, strings.Join(seen, "; ")
+}
+
+// yamlField: the struct type of cmd/keymasterd (full name) and the recorded Go name of the field whose yaml tag has
+// the given key.
+func yamlField(c *km.Ctx, key string) (string, string) {
+	pk := c.P.Pkg("cmd/keymasterd")
+	if pk == nil {
+		return "", ""
+	}
+	sc := pk.Pkg.Scope()
+	names := sc.Names()
+	sort.Strings(names)
+	for _, n := range names {
+		tn, ok := sc.Lookup(n).(*types.TypeName)
+		if !ok {
+			continue
+		}
+		st, ok := tn.Type().Underlying().(*types.Struct)
+		if !ok {
+			continue
+		}
+		for i := 0; i < st.NumFields(); i++ {
+			tag := reflect.StructTag(st.Tag(i)).Get("yaml")
+			if strings.Split(tag, ",")[0] == key {
+				return KMD + "." + n, km.RecordedField(tn.Type(), st.Field(i).Name())
+			}
+		}
+	}
+	return "", ""
 }
 
 func constFloat(v ssa.Value) (float64, bool) {
